@@ -30,30 +30,30 @@ From PV Require Import Base.Exn Model.ValidateSem Spec.ValidateSpec Proofs.Valid
   Proofs.ValidateBind Proofs.ValidateGate Proofs.ValidateByName Proofs.ValidateSpecLink Gen.Validate.
 Import ListNotations.
 
-Definition vrun {value : Type} (is_none : value -> bool) (veq : value -> value -> bool) :=
-  run value is_none veq Gen.Validate.cfg Gen.Validate.is_required_rule.
+Definition vrun {value : Type} (is_none : value -> bool) :=
+  run value is_none Gen.Validate.cfg Gen.Validate.is_required_rule.
 
 Theorem C13_cfg_is_reference :
   Gen.Validate.cfg = reference_cfg /\ Gen.Validate.is_required_rule = reference_req_rule.
 Proof. split; reflexivity. Qed.
 Print Assumptions C13_cfg_is_reference.
 
-Lemma vrun_ref : forall value is_none veq, @vrun value is_none veq = run value is_none veq reference_cfg reference_req_rule.
+Lemma vrun_ref : forall value is_none, @vrun value is_none = run value is_none reference_cfg reference_req_rule.
 Proof. intros. unfold vrun. destruct C13_cfg_is_reference as [-> ->]. reflexivity. Qed.
 
 (* THE BINDING IS THE SPECIFIED ONE (see C12_run_meets_spec): well-formed declaration and call - the run ends as
    Spec/ValidateSpec.v spec_outcome demands, which is a function of the named assignment only *)
-Theorem C13_binding_is_specified : forall value is_none veq sg env dc c is_async,
+Theorem C13_binding_is_specified : forall value is_none sg env dc c is_async,
   s_varpos sg = false ->
   decl_wellformed value sg dc = true -> call_wellformed value sg c = true ->
   declared value dc self_name = false ->
   (forall p, In p (d_params dc) -> derives (p_exc p) ParameterExceptionC = true) ->
   snd (flask_m value env dc) = WOk tt ->
   match spec_outcome value is_none sg dc c with
-  | DRaise rs => exists e pn, snd (vrun is_none veq sg env dc is_async c) = FRaise e pn /\ raise_allowed e pn rs
-  | DPythonRejects => snd (vrun is_none veq sg env dc is_async c) = FRaise TypeErrorC None
+  | DRaise rs => exists e pn, snd (vrun is_none sg env dc is_async c) = FRaise e pn /\ raise_allowed e pn rs
+  | DPythonRejects => snd (vrun is_none sg env dc is_async c) = FRaise TypeErrorC None
   | DBody b => names_fit value sg dc c = true ->
-               exists b', snd (vrun is_none veq sg env dc is_async c) = FBody b' /\ deq b' b
+               exists b', snd (vrun is_none sg env dc is_async c) = FBody b' /\ deq b' b
   end.
 Proof. intros. rewrite vrun_ref in *. now apply run_meets_spec. Qed.
 Print Assumptions C13_binding_is_specified.
@@ -61,7 +61,7 @@ Print Assumptions C13_binding_is_specified.
 (* CALL STYLE.  named_assignment c = which name is given which value (keywords, and positionals under the names
    of the parameters they bind to).  Two calls Python accepts with the same named assignment - any split into a
    positional prefix and keywords, the keywords in any order - end the same way. *)
-Theorem C13_call_style_invariant : forall value is_none veq sg env dc is_async c c',
+Theorem C13_call_style_invariant : forall value is_none sg env dc is_async c c',
   s_varpos sg = false ->
   d_ignore_input dc = false ->
   List.length (c_args c) <= List.length (pos_params value sg) ->
@@ -69,55 +69,55 @@ Theorem C13_call_style_invariant : forall value is_none veq sg env dc is_async c
   Permutation (named_assignment value sg c) (named_assignment value sg c') ->
   NoDup (keys (named_assignment value sg c)) ->
   self_guard value sg dc c = true -> self_guard value sg dc c' = true ->
-  final_equiv value (snd (vrun is_none veq sg env dc is_async c)) (snd (vrun is_none veq sg env dc is_async c')).
+  final_equiv value (snd (vrun is_none sg env dc is_async c)) (snd (vrun is_none sg env dc is_async c')).
 Proof. intros. rewrite vrun_ref in *. eapply call_style_invariant'; eauto. Qed.
 Print Assumptions C13_call_style_invariant.
 
 (* DECLARATION ORDER.  Any permutation of the Parameter list (names pairwise distinct) *)
-Theorem C13_declaration_order_invariant : forall value is_none veq sg env dc dc' is_async c,
+Theorem C13_declaration_order_invariant : forall value is_none sg env dc dc' is_async c,
   s_varpos sg = false ->
   same_but_params value dc dc' -> NoDup (map (@p_name value) (d_params dc)) ->
   self_guard value sg dc c = true -> self_guard value sg dc' c = true ->
-  final_equiv value (snd (vrun is_none veq sg env dc is_async c)) (snd (vrun is_none veq sg env dc' is_async c)).
+  final_equiv value (snd (vrun is_none sg env dc is_async c)) (snd (vrun is_none sg env dc' is_async c)).
 Proof. intros. rewrite vrun_ref in *. eapply declaration_order_invariant; eauto. Qed.
 Print Assumptions C13_declaration_order_invariant.
 
 (* RETURN_AS.  ARGS and KWARGS_WITH_NONE end identically (same binding in the same order, same exception) ... *)
-Theorem C13_return_as_invariant : forall value is_none veq sg env dc is_async c,
+Theorem C13_return_as_invariant : forall value is_none sg env dc is_async c,
   s_varpos sg = false ->
   self_guard value sg dc c = true ->
-  snd (vrun is_none veq sg env (with_mode value dc ARGS) is_async c) =
-  snd (vrun is_none veq sg env (with_mode value dc KWARGS_WITH_NONE) is_async c).
+  snd (vrun is_none sg env (with_mode value dc ARGS) is_async c) =
+  snd (vrun is_none sg env (with_mode value dc KWARGS_WITH_NONE) is_async c).
 Proof. intros. rewrite vrun_ref in *. eapply args_equals_kwargs; eauto. Qed.
 Print Assumptions C13_return_as_invariant.
 
 (* ... and KWARGS_WITHOUT_NONE differs from them exactly by omitting None values, so that signature defaults
    apply: same exception if _wrapper_content raised; same values under all names whose value is not None; the
    signature default where the value is None; Python's TypeError if such a parameter has no default *)
-Theorem C13_return_as_without_none : forall value is_none veq sg env dc is_async c,
+Theorem C13_return_as_without_none : forall value is_none sg env dc is_async c,
   s_varpos sg = false ->
   self_guard value sg dc c = true -> names_fit value sg dc c = true ->
   without_none_relation value is_none sg
-    (snd (vrun is_none veq sg env (with_mode value dc KWARGS_WITH_NONE) is_async c))
-    (snd (vrun is_none veq sg env (with_mode value dc KWARGS_WITHOUT_NONE) is_async c)).
+    (snd (vrun is_none sg env (with_mode value dc KWARGS_WITH_NONE) is_async c))
+    (snd (vrun is_none sg env (with_mode value dc KWARGS_WITHOUT_NONE) is_async c)).
 Proof. intros. rewrite vrun_ref in *. eapply kwargs_without_none; eauto. Qed.
 Print Assumptions C13_return_as_without_none.
 
 (* EXTERNAL SOURCES.  If the caller passes a value for a declared name, the external source of that name is never
    consulted: replacing it by any other source (absent, present, raising) changes nothing, journal included ... *)
-Theorem C13_external_only_when_absent : forall value is_none veq sg env dc n e is_async c w,
+Theorem C13_external_only_when_absent : forall value is_none sg env dc n e is_async c w,
   s_varpos sg = false ->
   caller_gives value sg dc c n w -> declared value dc n = true ->
-  vrun is_none veq sg env (replace_ext value dc n e) is_async c = vrun is_none veq sg env dc is_async c.
+  vrun is_none sg env (replace_ext value dc n e) is_async c = vrun is_none sg env dc is_async c.
 Proof. intros. rewrite vrun_ref in *. eapply external_unused_when_supplied; eassumption. Qed.
 Print Assumptions C13_external_only_when_absent.
 
 (* ... and if the caller passes none, the body sees the chain output of the external value *)
-Theorem C13_external_supplies_when_absent : forall value is_none veq sg env dc is_async c j b p w v,
+Theorem C13_external_supplies_when_absent : forall value is_none sg env dc is_async c j b p w v,
   s_varpos sg = false ->
   self_guard value sg dc c = true ->
   NoDup (map (@p_name value) (d_params dc)) ->
-  vrun is_none veq sg env dc is_async c = (j, FBody b) ->
+  vrun is_none sg env dc is_async c = (j, FBody b) ->
   In p (d_params dc) -> (forall w', ~ caller_gives value sg dc c (p_name p) w') ->
   external_gives value p w -> spec_param value is_none p w = VPass v ->
   (d_mode dc <> KWARGS_WITHOUT_NONE \/ is_none v = false) ->
@@ -126,10 +126,10 @@ Proof. intros. rewrite vrun_ref in *. eapply external_supplies_when_absent; eaut
 Print Assumptions C13_external_supplies_when_absent.
 
 (* ignore_input=True: the caller's input is ignored *)
-Theorem C13_ignore_input : forall value is_none veq sg env dc is_async c,
+Theorem C13_ignore_input : forall value is_none sg env dc is_async c,
   s_varpos sg = false ->
   d_ignore_input dc = true ->
-  vrun is_none veq sg env dc is_async c = vrun is_none veq sg env dc is_async (Build_call value [] []).
+  vrun is_none sg env dc is_async c = vrun is_none sg env dc is_async (Build_call value [] []).
 Proof. intros. rewrite vrun_ref in *. eapply ignore_input_ignores; eauto. Qed.
 Print Assumptions C13_ignore_input.
 
@@ -154,10 +154,10 @@ Example C13_K1_witness_fixed :
   let c := {| c_args := []; c_kwargs := [(1, 1); (3, 2)] |} in
   let c' := {| c_args := []; c_kwargs := [(3, 2); (1, 1)] |} in
   names_fit nat sg dc c = false /\
-  snd (vrun nnone Nat.eqb sg no_env dc false c) = FRaise TypeErrorC None /\
-  snd (vrun nnone Nat.eqb sg no_env dc false c') = FRaise TypeErrorC None /\
-  snd (vrun nnone Nat.eqb sg no_env (with_mode nat dc KWARGS_WITH_NONE) false c) = FRaise TypeErrorC None /\
-  snd (vrun nnone Nat.eqb sg no_env (with_mode nat dc KWARGS_WITHOUT_NONE) false c) = FRaise TypeErrorC None.
+  snd (vrun nnone sg no_env dc false c) = FRaise TypeErrorC None /\
+  snd (vrun nnone sg no_env dc false c') = FRaise TypeErrorC None /\
+  snd (vrun nnone sg no_env (with_mode nat dc KWARGS_WITH_NONE) false c) = FRaise TypeErrorC None /\
+  snd (vrun nnone sg no_env (with_mode nat dc KWARGS_WITHOUT_NONE) false c) = FRaise TypeErrorC None.
 Proof. repeat split. Qed.
 
 (* outside names_fit (open finding C13-K2): def f(a), Parameter a, strict=False; f(a=1, z=None): ARGS and
@@ -166,11 +166,11 @@ Proof. repeat split. Qed.
 Theorem C13_return_as_without_none_refuted : exists sg env dc is_async c,
   self_guard nat sg dc c = true /\ names_fit nat sg dc c = false /\
   ~ without_none_relation nat nnone sg
-      (snd (vrun nnone Nat.eqb sg env (with_mode nat dc KWARGS_WITH_NONE) is_async c))
-      (snd (vrun nnone Nat.eqb sg env (with_mode nat dc KWARGS_WITHOUT_NONE) is_async c)) /\
-  snd (vrun nnone Nat.eqb sg env (with_mode nat dc ARGS) is_async c) = FRaise TypeErrorC None /\
-  snd (vrun nnone Nat.eqb sg env (with_mode nat dc KWARGS_WITH_NONE) is_async c) = FRaise TypeErrorC None /\
-  snd (vrun nnone Nat.eqb sg env (with_mode nat dc KWARGS_WITHOUT_NONE) is_async c) = FBody [(1, 1)].
+      (snd (vrun nnone sg env (with_mode nat dc KWARGS_WITH_NONE) is_async c))
+      (snd (vrun nnone sg env (with_mode nat dc KWARGS_WITHOUT_NONE) is_async c)) /\
+  snd (vrun nnone sg env (with_mode nat dc ARGS) is_async c) = FRaise TypeErrorC None /\
+  snd (vrun nnone sg env (with_mode nat dc KWARGS_WITH_NONE) is_async c) = FRaise TypeErrorC None /\
+  snd (vrun nnone sg env (with_mode nat dc KWARGS_WITHOUT_NONE) is_async c) = FBody [(1, 1)].
 Proof.
   exists (mksig [(1, None)] false), no_env,
     {| d_params := [mkparam 1 [] true None None]; d_mode := ARGS; d_strict := false; d_ignore_input := false |},
@@ -184,7 +184,7 @@ Print Assumptions C13_return_as_without_none_refuted.
 Theorem C13_self_by_keyword_refuted : exists sg env dc is_async c c',
   Permutation (named_assignment nat sg c) (named_assignment nat sg c') /\
   self_guard nat sg dc c = true /\ self_guard nat sg dc c' = false /\
-  ~ final_equiv nat (snd (vrun nnone Nat.eqb sg env dc is_async c)) (snd (vrun nnone Nat.eqb sg env dc is_async c')).
+  ~ final_equiv nat (snd (vrun nnone sg env dc is_async c)) (snd (vrun nnone sg env dc is_async c')).
 Proof.
   exists (mksig [(0, None); (1, None)] false), no_env,
     {| d_params := [mkparam 1 [] true None None]; d_mode := KWARGS_WITH_NONE; d_strict := true; d_ignore_input := false |},
@@ -199,7 +199,7 @@ Print Assumptions C13_self_by_keyword_refuted.
    and never arrives under its own name *)
 Theorem C13_external_supplies_self_refuted : exists sg env dc is_async c j b p w v,
   self_guard nat sg dc c = false /\ NoDup (map (@p_name nat) (d_params dc)) /\
-  vrun nnone Nat.eqb sg env dc is_async c = (j, FBody b) /\ In p (d_params dc) /\
+  vrun nnone sg env dc is_async c = (j, FBody b) /\ In p (d_params dc) /\
   (forall w', ~ caller_gives nat sg dc c (p_name p) w') /\ external_gives nat p w /\
   spec_param nat nnone p w = VPass v /\ d_mode dc <> KWARGS_WITHOUT_NONE /\ dget (p_name p) b <> Some v.
 Proof.
@@ -232,9 +232,9 @@ Example C13_call_style_hypotheses_satisfiable :
   Permutation (named_assignment nat ex_sig c1) (named_assignment nat ex_sig c3) /\
   NoDup (keys (named_assignment nat ex_sig c1)) /\
   self_guard nat ex_sig dc c2 = true /\ self_guard nat ex_sig dc c3 = true /\
-  snd (vrun nnone Nat.eqb ex_sig no_env dc false c1) = FBody [(1, 4); (2, 5); (3, 6)] /\
-  snd (vrun nnone Nat.eqb ex_sig no_env dc false c2) = FBody [(1, 4); (2, 5); (3, 6)] /\
-  snd (vrun nnone Nat.eqb ex_sig no_env dc false c3) = FBody [(1, 4); (2, 5); (3, 6)].
+  snd (vrun nnone ex_sig no_env dc false c1) = FBody [(1, 4); (2, 5); (3, 6)] /\
+  snd (vrun nnone ex_sig no_env dc false c2) = FBody [(1, 4); (2, 5); (3, 6)] /\
+  snd (vrun nnone ex_sig no_env dc false c3) = FBody [(1, 4); (2, 5); (3, 6)].
 Proof.
   cbv zeta. repeat split.
   - apply (Permutation_cons_app [(3, 6); (2, 4)] []). apply perm_swap.
@@ -245,7 +245,7 @@ Qed.
 Example C13_declaration_order_hypotheses_satisfiable :
   same_but_params nat (ex_deco [pc; pa; pb] ARGS) (ex_deco [pb; pc; pa] ARGS) /\
   NoDup (map (@p_name nat) (d_params (ex_deco [pc; pa; pb] ARGS))) /\
-  snd (vrun nnone Nat.eqb ex_sig no_env (ex_deco [pb; pc; pa] ARGS) false {| c_args := [3]; c_kwargs := [(2, 4)] |})
+  snd (vrun nnone ex_sig no_env (ex_deco [pb; pc; pa] ARGS) false {| c_args := [3]; c_kwargs := [(2, 4)] |})
   = FBody [(1, 4); (2, 5); (3, 4)].
 Proof.
   repeat split.
@@ -258,18 +258,18 @@ Example C13_return_as_hypotheses_satisfiable :
   let dc := ex_deco [pa; pb; mkparam 3 [to_none] false None None] ARGS in
   let c := {| c_args := [3; 4; 6]; c_kwargs := [] |} in
   self_guard nat ex_sig dc c = true /\ names_fit nat ex_sig dc c = true /\
-  snd (vrun nnone Nat.eqb ex_sig no_env (with_mode nat dc ARGS) false c) = FBody [(1, 4); (2, 5); (3, 0)] /\
-  snd (vrun nnone Nat.eqb ex_sig no_env (with_mode nat dc KWARGS_WITHOUT_NONE) false c) = FBody [(1, 4); (2, 5); (3, 9)].
+  snd (vrun nnone ex_sig no_env (with_mode nat dc ARGS) false c) = FBody [(1, 4); (2, 5); (3, 0)] /\
+  snd (vrun nnone ex_sig no_env (with_mode nat dc KWARGS_WITHOUT_NONE) false c) = FBody [(1, 4); (2, 5); (3, 9)].
 Proof. repeat split. Qed.
 
 Example C13_external_hypotheses_satisfiable :
   let x := Some {| e_has := true; e_load := Ok 2 |} in
   let dc := ex_deco [pa; mkparam 2 [plus_one] true None x; pc] KWARGS_WITH_NONE in
   (* the caller passes b: the source is not consulted *)
-  snd (vrun nnone Nat.eqb ex_sig no_env dc false {| c_args := [3; 4]; c_kwargs := [] |}) = FBody [(1, 4); (2, 5); (3, 4)] /\
+  snd (vrun nnone ex_sig no_env dc false {| c_args := [3; 4]; c_kwargs := [] |}) = FBody [(1, 4); (2, 5); (3, 4)] /\
   caller_gives nat ex_sig dc {| c_args := [3; 4]; c_kwargs := [] |} 2 4 /\
   (* the caller does not: the body sees plus_one 2 *)
-  snd (vrun nnone Nat.eqb ex_sig no_env dc false {| c_args := [3]; c_kwargs := [] |}) = FBody [(1, 4); (2, 3); (3, 4)] /\
+  snd (vrun nnone ex_sig no_env dc false {| c_args := [3]; c_kwargs := [] |}) = FBody [(1, 4); (2, 3); (3, 4)] /\
   external_gives nat (mkparam 2 [plus_one] true None x) 2.
 Proof.
   cbv zeta. repeat split.
